@@ -2,8 +2,13 @@ package props
 
 import (
 	"fmt"
-	"github.com/robfig/soy/soyjs"
+	"os"
+	"path/filepath"
 	"strings"
+
+	"github.com/robfig/soy"
+	"github.com/robfig/soy/soyhtml"
+	"github.com/robfig/soy/soyjs"
 	"verif/jsx"
 
 	"verif/fw"
@@ -220,7 +225,7 @@ func init() {
 			case i == nEx+nPf:
 				commentsOnly = true
 			default:
-				alpha := append(append([]string{}, c15Alphabet...), "中", "😀", "\u00e0", "\u4e05", "\u0160", "\u00a0", "\u3000", "\u2028", "\u00a0\n", "\n\u3000", "b", "\n", "\n  ", " ")
+				alpha := append(append([]string{}, c15Alphabet...), "中", "😀", "\u00e0", "\u4e05", "\u0160", "\u00a0", "\u3000", "\u2028", "\u00a0\n", "\n\u3000", "b", "\n", "\n  ", " ", "\ufeff", "x\ufeffy", "\u200b")
 				for k := 0; k < c15Batch; k++ {
 					n := 6 + ctx.Rng.Intn(20)
 					var b strings.Builder
@@ -287,6 +292,33 @@ func init() {
 				if err != nil || got != c.want {
 					return fw.Result{Verdict: fw.Violated, Key: "rawtext-mismatch", Case: map[string]string{"text": c.text, "left": c.l, "right": c.r, "want": c.want, "got": got},
 						Msg: fmt.Sprintf("text run %q between %s and %s: want %q, got %q (err %v)", c.text, c.l, c.r, c.want, got, err)}
+				}
+			}
+			// the same file read from disk (Bundle.AddTemplateFile; every fifth batch): the text of a template does not
+			// depend on the entry point that brought the file in
+			if i%5 == 2 {
+				if dir, derr := os.MkdirTemp("", "c15disk"); derr == nil {
+					p := filepath.Join(dir, "c15.soy")
+					werr := os.WriteFile(p, []byte(file.Text), 0644)
+					var dtofu *soyhtml.Tofu
+					var cerr error
+					if werr == nil {
+						dtofu, cerr = soy.NewBundle().AddTemplateFile(p).CompileToTofu()
+					}
+					os.RemoveAll(dir)
+					if werr == nil {
+						if cerr != nil {
+							return fw.Result{Verdict: fw.Violated, Key: "compile-rejects-valid:from-disk", Case: file, Msg: "accepted as a string, rejected as a file: " + errText(cerr)}
+						}
+						for _, c := range cases {
+							got, err := render(dtofu, "t."+c.name, d, &ijv, nil)
+							ctx.Obs("cases_from_disk", 1)
+							if err != nil || got != c.want {
+								return fw.Result{Verdict: fw.Violated, Key: "rawtext-mismatch:from-disk", Case: map[string]string{"text": c.text, "left": c.l, "right": c.r, "want": c.want, "got": got},
+									Msg: fmt.Sprintf("text run %q between %s and %s, file read through AddTemplateFile: want %q, got %q (err %v)", c.text, c.l, c.r, c.want, got, err)}
+							}
+						}
+					}
 				}
 			}
 			// the same templates through the generated JavaScript (every fourth batch and every seeded batch): text is
